@@ -290,11 +290,32 @@ def check_gen_degrees(facts, rep):
     # jones state-sum term: (-q)^w * (q + q^-1)^r
     pw = {}
     q0_exps = None
+    root_j = [b for b in jn if b.kind != 'Closure']
+    captured = {}
+    if root_j:
+        names = set()
+        for b in jn:
+            for p in SymEx(b, havoc_loops=True).run():
+                for e in p.calls():
+                    if e.name.endswith('::pow') and e.args:
+                        m = re.search(r'\^(?:_ref__)?(\w+)\)*$', sk(e.args[0]))
+                        if m:
+                            names.add(m.group(1))
+        if names:
+            captured = {k: {sk(t) for t in v} for k, v in named_local_terms(root_j[0], names).items()}
+    unresolved = False
     for b in jn:
         for p in SymEx(b, havoc_loops=True).run():
             for e in p.calls():
                 if e.name.endswith('::pow') and len(e.args) == 2:
                     base, ex = sk(e.args[0]), sk(e.args[1])
+                    m = re.search(r'\^(?:_ref__)?(\w+)\)*$', base)
+                    if m and 'neg(' not in base and 'variable' not in base:
+                        defs = captured.get(m.group(1))
+                        if defs and len(defs) == 1:
+                            base = next(iter(defs))       # a captured local: judge its definition in the enclosing function
+                        elif ('weight(' in ex) or ('components(' in ex):
+                            unresolved = True
                     if 'weight(' in ex:
                         pw['weight'] = 'neg' if 'neg(' in base else 'pos'
                     elif 'components(' in ex and 'len(' in ex:
@@ -312,6 +333,8 @@ def check_gen_degrees(facts, rep):
           pw.get('weight') == 'neg' and 'circles' in pw and q0_exps == {1, -1})
     if ok:
         rep.ok('E8.F3-generator-degrees', inst, 'deg(1)+1 = 1, deg(X)+1 = -1 match q + q^-1; weight enters with coefficient 1 and sign (-1)^|s|')
+    elif unresolved or 'weight' not in pw or 'circles' not in pw or q0_exps is None:
+        rep.indet('E8.F3: state-sum term of jones_polynomial outside the recognised fragment (bases %s, q0 %s)' % (pw, q0_exps))
     else:
         rep.violation('E8.F3-generator-degrees', inst,
                       'generator q-degree is %s with label degrees %s (per-circle contributions %s); the Jones state sum uses (%s q)^|s| and (q^%s)^#circles' %
